@@ -385,7 +385,15 @@ func ruleFormat(r *Report) {
 				ok, why = false, "uncompressed size argument is not len(record)"
 			}
 			// arg3 = record == nil
-			if bo, isB := a[3].(*ssa.BinOp); !isB || bo.Op != token.EQL || bo.X != ssa.Value(rec) || !isNilConst(bo.Y) {
+			nilFlag := false
+			if bo, isB := a[3].(*ssa.BinOp); isB {
+				for _, v := range cmpViews(bo) {
+					if v.Op == token.EQL && v.X == ssa.Value(rec) && isNilConst(v.Y) {
+						nilFlag = true
+					}
+				}
+			}
+			if !nilFlag {
 				ok, why = false, "nil flag argument is not `record == nil`"
 			}
 			// arg2 = phi(0, len(compressedRecord)) where compressedRecord is the compressor's output
@@ -816,20 +824,19 @@ func ruleCompressionTable(r *Report) {
 			if len(b.Instrs) == 0 {
 				continue
 			}
-			iff, ok := b.Instrs[len(b.Instrs)-1].(*ssa.If)
-			if !ok {
-				continue
-			}
-			bo, ok := iff.Cond.(*ssa.BinOp)
-			if !ok {
-				continue
-			}
-			k, isK := constInt(bo.Y)
-			if !isK || !endsInFailingReturn(b.Succs[0]) {
-				continue
-			}
-			if c, isC := bo.X.(*ssa.Call); isC && strings.HasSuffix(CalleeKey(c), "littleEndian.Uint32") {
-				rej[c] = append(rej[c], bound{bo.Op, k})
+			// whichever way the test is written: the reading under which the failing return is the "holds" side
+			for _, v := range ifCmpForms(b) {
+				if !endsInFailingReturn(v.T) || endsInFailingReturn(v.F) {
+					continue
+				}
+				k, isK := constInt(v.Y)
+				if !isK {
+					continue
+				}
+				if c, isC := v.X.(*ssa.Call); isC && strings.HasSuffix(CalleeKey(c), "littleEndian.Uint32") {
+					rej[c] = append(rej[c], bound{v.Op, k})
+					break
+				}
 			}
 		}
 		accepts := func(bs []bound, v int64) bool {
@@ -964,7 +971,7 @@ func ruleNilFlag(r *Report) {
 					readAfterNil := false
 					reach := reachFrom(b.Succs[0], nil)
 					for _, c := range cons {
-						if reach[c.Block] && !c.Block.Dominates(b) {
+						if reach[c.Block] && !dominates(c.Block, b) {
 							readAfterNil = true
 						}
 					}
@@ -978,7 +985,7 @@ func ruleNilFlag(r *Report) {
 							if !reachFrom(b, nil)[sk.Block] {
 								continue
 							}
-							if !b.Dominates(sk.Block) {
+							if !dominates(b, sk.Block) {
 								used = false
 								continue
 							}
